@@ -45,6 +45,25 @@ theorem stateOf_removeConn (cs : List Conn) (c b : Nat) :
       · rw [if_neg hxb]
         conv => rhs; rw [stateOf, if_neg hxb]
 
+theorem setState_absent (cs : List Conn) (c : Nat) (st : CState) (h : stateOf cs c = none) : setState cs c st = cs := by
+  induction cs with
+  | nil => rfl
+  | cons x t ih =>
+    by_cases hx : x.id = c
+    · simp [stateOf, hx] at h
+    · rw [stateOf, if_neg hx] at h
+      rw [setState, if_neg hx, ih h]
+
+/-- no live connection has an id below the first id the accept loop hands out -/
+theorem stateOf_below_start (cs : List Conn) (start i : Nat) (hids : ∀ x ∈ cs, start ≤ x.id) (hi : i < start) :
+    stateOf cs i = none := by
+  induction cs with
+  | nil => rfl
+  | cons x t ih =>
+    have hx : ¬ x.id = i := fun h => by have := hids x (by simp); omega
+    rw [stateOf, if_neg hx]
+    exact ih (fun y hy => hids y (by simp [hy]))
+
 theorem low_none : low none := by simp [low]
 theorem low_connected : low (some .connected) := by simp [low]
 theorem low_closing : low (some .closing) := by simp [low]
